@@ -26,7 +26,7 @@ pub static DEF: PropDef = PropDef {
         "programs containing fail nodes are excluded from the C leg (C refuses them at decode)",
     ],
     shards: (32, 128),
-    budget_ms: (10_000, 30_000),
+    budget_ms: (60_000, 180_000),
 };
 
 fn exec(p: &RedeemNode, fam: Fam, env: &envs::Env) -> Result<simplicity::Value, String> {
